@@ -13,6 +13,8 @@ from ..datafiles import libraries
 from . import c10
 
 EXPLANATION = (
+    'Data: D12.8 every value with a unit (explicit or file default) in every shipped file has the dimension of its kind, so that it loads to a plain number. '
+
     "R12.1: the kinds in ThermochemIncomplete._yaml_schema (lifted from the "
     "string constant) are the ones the key names promise (H_ref molar "
     "enthalpy, S_ref molar entropy, Cp_data molar heat capacity, "
@@ -508,3 +510,7 @@ def run(chk, repo, tier):
                    found='; '.join(problems))
     chk.need('R12.5', nfiles, 10, 'shipped data files with bare numbers')
     chk.extra['data_files_audited'] = nfiles
+    # ---- the shipped data ---------------------------------------------------
+    from .. import dataaudit
+    dataaudit.quantity_dimensions(chk, repo, 'D12.8')
+
